@@ -98,7 +98,7 @@ Definition census_table : list (string * (nat * string)) :=
    ("DHCP4.validateOptions", (1%nat, "dhcp_walk true: C08_dhcp_is_valid_total, C08_progress_dhcp_options"));
    ("LLDP.GetPDU", (1%nat, "lldp_get_pdu: C08_lldp_total, C08_progress_lldp"));
    ("LLDP.FastLog", (1%nat, "not modelled here: VIEWS lldp_walk (C01)"));
-   ("decodeName", (1%nat, "not modelled here: DNS decodeName (C08_decodeName_total)"));
+   ("decodeName", (2%nat, "not modelled here: DNS decodeName (C08_decodeName_total); second loop since c8663df: the dot scan of a label"));
    ("DNSEntry.decodeRRs", (1%nat, "not modelled here: DNS decodeRRs (C08_decodeRRs_total)"));
    ("DNSEntry.Copy", (4%nat, "not modelled: map copies of the stored entry (no input indexing)"));
    ("DNSEntry.FastLog", (3%nat, "not modelled: logging of the stored entry (C20)"));
@@ -118,6 +118,9 @@ Definition census_table : list (string * (nat * string)) :=
    ("Session.printHostTable", (2%nat, "not modelled: TABLES (printing)"))].
 Fixpoint census_lookup (k : string) (t : list (string * (nat * string))) : option (nat * string) :=
   match t with [] => None | (n, v) :: r => if String.eqb n k then Some v else census_lookup k r end.
+
+(* size limits of the handler packages as found in the source ("-": none) *)
+Definition limits_of (pkg : string) : string := "-".
 
 (* processors: nil / error are not distinguished *)
 Definition obs_ret (r : res unit) : string :=
@@ -245,6 +248,19 @@ Definition dispatch_misc (kind : string) (args : list string) : option string :=
         let present := Text.split ","%char names in
         let missing := filter (fun e => negb (existsb (String.eqb (fst e)) present)) census_table in
         Some (out3 (match missing with [] => "ok" | e :: _ => "missing:" ++ fst e end) "-" "-")
+    | _ => Some BADARGS end
+  else if String.eqb kind "scale" then
+    (* one handler, n distinct entry-creating frames, then the queries and Close, every call under a
+       watchdog: the processors are total and the tables are unbounded maps: every call returns *)
+    match args with
+    | [_; n] => Some (out3 ("ret:" ++ n) "-" "-")
+    | _ => Some BADARGS end
+  else if String.eqb kind "limits" then
+    (* size limits (>= 64) found in the source of a handler package; the model knows none: the
+       tables are maps without a bound.  A limit added to the code must be added here AND to the
+       model of the table it bounds *)
+    match args with
+    | [pkg; vals] => Some (out3 (if String.eqb vals (limits_of pkg) then "ok" else "new-limit:" ++ vals) "-" "-")
     | _ => Some BADARGS end
   else if String.eqb kind "seq" then
     (* a history of frames to one handler: every step returns, whatever state the earlier steps
